@@ -44,6 +44,21 @@ def main():
     out = Path(sys.argv[2])
     out.mkdir(parents=True, exist_ok=True)
     rc = 0
+    # pre-pass (tools/py2v/normalize.py): rewrite harmless spelling variants into the shapes of the pinned source
+    try:
+        from . import normalize
+        import ast as _ast
+
+        real = src
+        root = Path(__file__).resolve().parents[2]
+        work = root / "build" / "normsrc" if out.resolve() == (root / "coq" / "Gen").resolve() else out.parent / (out.name + "_normsrc")
+        src = normalize.normalized_dir(real, work)
+        for f in sorted(real.glob("*.py")):
+            if _ast.unparse(_ast.parse(f.read_text())) + "\n" != (src / f.name).read_text():
+                print(f"py2v: normalize: {f.name}: rewritten to normal form before translation")
+    except Exception as e:  # the generators then see the raw source and fail closed on their own
+        print(f"py2v: normalize: skipped ({type(e).__name__}: {e})")
+        src = Path(sys.argv[1])
     for name, modname in GENERATORS:
         try:
             mod = importlib.import_module(f"tools.py2v.{modname}")
